@@ -25,6 +25,7 @@ import (
 	"os"
 	"runtime/debug"
 	"strings"
+	"sync"
 
 	"github.com/go-python/gpython/py"
 )
@@ -445,6 +446,21 @@ func do_DELETE_SUBSCR(vm *Vm, arg int32) error {
 
 // Miscellaneous opcodes.
 
+// Where the output of PRINT_EXPR goes for the frames of one context,
+// see SetPrintExpr
+var printExprByContext sync.Map // py.Context -> func(string)
+
+// SetPrintExpr sets where the output of PRINT_EXPR goes for the
+// frames run by ctx, instead of PrintExpr which is shared by all
+// contexts.  A nil fn removes the setting.
+func SetPrintExpr(ctx py.Context, fn func(out string)) {
+	if fn == nil {
+		printExprByContext.Delete(ctx)
+	} else {
+		printExprByContext.Store(ctx, fn)
+	}
+}
+
 // PrintExpr controls where the output of PRINT_EXPR goes which is
 // used in the REPL
 var PrintExpr = func(out string) {
@@ -470,7 +486,11 @@ func do_PRINT_EXPR(vm *Vm, arg int32) error {
 	if err != nil {
 		return err
 	}
-	PrintExpr(fmt.Sprint(repr))
+	if hook, ok := printExprByContext.Load(vm.context); ok {
+		hook.(func(string))(fmt.Sprint(repr))
+	} else {
+		PrintExpr(fmt.Sprint(repr))
+	}
 	vm.frame.Globals["_"] = value
 	return nil
 }
